@@ -84,12 +84,37 @@ theorem len_eq (c : Codec V) (hu : c.mult = 1) (d : Bits) : len c d = (items c d
 /-- `tolist()`: the `range(0, len(data) - L + 1, L)` loop reads exactly the items. -/
 theorem tolist_eq_items (c : Codec V) (hu : c.mult = 1) (hL : 0 < c.L) (d : Bits) :
     tolist c d = .ok (items c d) := by
-  sorry
+  obtain ⟨bs, t, hbs, ht, rfl, hch, htr, hlen, hit⟩ := blocks_view c hu hL d
+  unfold tolist Py.rangeList
+  have hl : (bs.flatten ++ t).length = bs.length * c.L + t.length := by
+    rw [List.length_append, blocks_flatten_length c.L bs hbs]
+  rw [hl, rangeLen_tolist bs.length c.L t.length hL ht, hit]
+  rw [mapM_except_ok _ (fun s => c.dec ((bs.flatten ++ t).drop s.toNat |>.take c.L))]
+  · congr 1
+    apply List.ext_getElem
+    · simp
+    · intro i h1 h2
+      simp only [List.length_map, List.length_range] at h1 h2
+      simp only [List.getElem_map, List.getElem_range]
+      rw [toNat_zero_add_mul, block_at c.L bs t hbs i h2]
+  · intro s hs
+    simp only [List.mem_map, List.mem_range] at hs
+    obtain ⟨k, hk, rfl⟩ := hs
+    rw [toNat_zero_add_mul, Nat.mul_comm k c.L, readAt_block c hu bs t hbs k hk]
+    rw [Nat.mul_comm c.L k, block_at c.L bs t hbs k hk]
 
 /-- Iteration (`start += L` generator) yields exactly the items. -/
 theorem iter_eq_items (c : Codec V) (hu : c.mult = 1) (hL : 0 < c.L) (d : Bits) :
     iter c d = .ok (items c d) := by
-  sorry
+  obtain ⟨bs, t, hbs, ht, rfl, hch, htr, hlen, hit⟩ := blocks_view c hu hL d
+  unfold iter
+  have h := iterLoop_blocks c hu bs t hbs bs.length 0 (by omega)
+  rw [Nat.mul_zero] at h
+  rw [hlen, h, hit]
+  simp only [List.drop_zero, List.take_length]
+  have : (bs.map fun b => (Except.ok (c.dec b) : Except Err V)) = (bs.map c.dec).map (fun x => Except.ok x) := by
+    simp
+  rw [this, mapM_id_ok]
 
 /-! ### a[i], a[i] = v, del a[i] -/
 
@@ -126,21 +151,75 @@ theorem getItem_refines (c : Codec V) (hu : c.mult = 1) (hL : 0 < c.L) (d : Bits
 theorem setItem_refines (c : Codec V) (hu : c.mult = 1) (hL : 0 < c.L) (hwf : c.WF) (d : Bits) (i : Int) (v : V)
     (hv : fits c v = true) :
     (setItem c d i v).view c = (PyL.setIndex (items c d) i v).map fun l => ((), l) := by
-  sorry
+  obtain ⟨bs, t, hbs, ht, rfl, hch, htr, hlen, hit⟩ := blocks_view c hu hL d
+  obtain ⟨b, hb⟩ := (fits_iff c v).mp hv
+  obtain ⟨hce, hbl, hdec⟩ := createElement_ok c hu hwf v b hb
+  rw [hit]
+  cases hn : normIndex bs.length i with
+  | error e =>
+    obtain ⟨rfl, hr⟩ := normIndex_err _ _ _ hn
+    have hs : setItem c (bs.flatten ++ t) i v = ⟨bs.flatten ++ t, .error .index⟩ := by
+      unfold setItem; rw [hlen, hn]
+    rw [hs]
+    unfold PyL.setIndex Step.view
+    simp only [List.length_map]
+    generalize (if i < 0 then i + (bs.length : Int) else i) = j at hr ⊢
+    have : j < 0 ∨ (bs.length : Int) ≤ j := by omega
+    simp [this, Except.map]
+  | ok k =>
+    obtain ⟨hk, hkj⟩ := normIndex_ok _ _ _ hn
+    rw [setItem_blocks c hu hL hwf bs t hbs ht i v b hb k hn]
+    unfold PyL.setIndex Step.view
+    simp only [List.length_map]
+    rw [(view_of_blocks c hu hL (bs.set k b) t (set_blocks_length c.L bs b hbs hbl k) ht).1]
+    generalize (if i < 0 then i + (bs.length : Int) else i) = j at hkj ⊢
+    have h1 : ¬ (j < 0 ∨ (bs.length : Int) ≤ j) := by omega
+    have h2 : j.toNat = k := by omega
+    simp [h1, h2, Except.map, List.map_set, hdec]
 
 /-- … and the trailing bits are untouched (whatever the index and the value). -/
 theorem setItem_trailing (c : Codec V) (hu : c.mult = 1) (hL : 0 < c.L) (hwf : c.WF) (d : Bits) (i : Int) (v : V) :
     trailing c.w (setItem c d i v).data = trailing c.w d := by
-  sorry
+  obtain ⟨bs, t, hbs, ht, rfl, hch, htr, hlen, hit⟩ := blocks_view c hu hL d
+  unfold setItem
+  rw [hlen]
+  cases hn : normIndex bs.length i with
+  | error e => rfl
+  | ok k =>
+    obtain ⟨hk, _⟩ := normIndex_ok _ _ _ hn
+    simp only
+    cases hce : createElement c v with
+    | error e => rfl
+    | ok b =>
+      obtain ⟨_, hbl⟩ := createElement_ok_inv c v b hce
+      simp only
+      rw [overwrite_block c.L hL bs t b hbs hbl k hk]
+      simp only
+      rw [htr]
+      exact (view_of_blocks c hu hL (bs.set k b) t (set_blocks_length c.L bs b hbs hbl k) ht).2.1
 
 /-- A rejected assignment (bad index or a value that does not fit) changes nothing. -/
 theorem setItem_error_unchanged (c : Codec V) (d : Bits) (i : Int) (v : V) (e : Err)
     (h : (setItem c d i v).res = .error e) : (setItem c d i v).data = d := by
-  sorry
+  revert h
+  unfold setItem
+  split
+  · intro _; rfl
+  · split
+    · intro _; rfl
+    · split
+      · intro _; rfl
+      · intro h; cases h
 
 theorem setItem_rejects (c : Codec V) (d : Bits) (i : Int) (v : V) (hv : fits c v = false) :
     ∃ e, (setItem c d i v).res = .error e := by
-  sorry
+  obtain ⟨e, he⟩ := (fits_false_iff c v).mp hv
+  unfold setItem
+  cases hn : normIndex (len c d) i with
+  | error e' => exact ⟨e', rfl⟩
+  | ok k =>
+    simp only [createElement_err c v e he]
+    exact ⟨e, rfl⟩
 
 theorem delItem_refines (c : Codec V) (hu : c.mult = 1) (hL : 0 < c.L) (d : Bits) (i : Int) :
     (delItem c d i).view c = (PyL.delIndex (items c d) i).map fun l => ((), l) := by
